@@ -1452,18 +1452,45 @@ def build_kind_model(kind, name, spec, extra_ns=None):
     """spec: list of (field name, type text, default: None | ('v', literal text) | ('f', factory name)); returns the class or None
     when the kind cannot express the spec (no defaults in TypedDict, no factories in NamedTuple)"""
     if kind == "sqlalchemy":
-        if any(d is not None for _n, _t, d in spec) or any(t not in ("int", "str", "float", "bool") for _n, t, _d in spec):
+        if any(d is not None and d[0] not in "vf" for _n, _t, d in spec) or any(t not in ("int", "str", "float", "bool") for _n, t, _d in spec):
             return None
         _KIND_COUNTER[0] += 1
-        # the second column has another name in the database than the attribute: the model's field is the ATTRIBUTE
-        body = "\n".join(f"    {n}: Mapped[{t}]" + (" = mapped_column(primary_key=True)" if i == 0 else f" = mapped_column('{n}_col')" if i == 1 else "")
-                         for i, (n, t, _d) in enumerate(spec))
+        # the second column has another name in the database than the attribute: the model's field is the ATTRIBUTE;
+        # a column default (scalar or callable) is the default of the field
+        def column(i, n, d):
+            args = []
+            if i == 0:
+                args.append("primary_key=True")
+            if i == 1:
+                args.append(f"'{n}_col'")
+            if d is not None:
+                args.append(f"default={d[1]}")
+            return f" = mapped_column({', '.join(args)})" if args else ""
+        body = "\n".join(f"    {n}: Mapped[{t}]" + column(i, n, d) for i, (n, t, d) in enumerate(spec))
         src = SQLALCHEMY_TEMPLATE.format(c=_KIND_COUNTER[0], name=name, body=body)
         import types
         mod = types.ModuleType(f"kinds_family_{_KIND_COUNTER[0]}")
         sys.modules[mod.__name__] = mod
+        mod.__dict__.update(extra_ns or {})
         exec(src, mod.__dict__)      # class definition only
         return mod.__dict__[name]
+    if kind == "mapped_dataclass":
+        # a dataclass that is ALSO mapped by SQLAlchemy (registry.map_imperatively): it stays the dataclass it is (the sqlalchemy
+        # introspection documents that it does not support such classes), its constructor is the one @dataclass generated
+        COL = {"int": "Integer", "str": "String", "float": "Float", "bool": "Boolean", "Optional[int]": "Integer"}
+        if any(t not in COL for _n, t, _d in spec):
+            return None
+        cls = build_kind_model("dataclass", name, spec, extra_ns)
+        if cls is None:
+            return None
+        import sqlalchemy
+        from sqlalchemy.orm import registry
+        reg = registry()
+        _KIND_COUNTER[0] += 1
+        cols = [sqlalchemy.Column(n, getattr(sqlalchemy, COL[t]), primary_key=(i == 0), nullable=(t.startswith("Optional") or i > 1))
+                for i, (n, t, _d) in enumerate(spec)]
+        reg.map_imperatively(cls, sqlalchemy.Table(f"mt{_KIND_COUNTER[0]}", reg.metadata, *cols))     # declaration only
+        return cls
     imports, cls_t, req_t, dv_t, df_t = KIND_TEMPLATES[kind]
     lines = []
     for n, t, d in spec:
@@ -1528,6 +1555,10 @@ def kinds_family(tier, seed):
         "sa_pk": [("code", "str", None), ("title", "str", None), ("n", "int", None)],
         # a keyword-only field declared in the middle: fields stay in declaration order, the parameters do not
         "kw_mid": [("a", "int", None), ("b", "str", ("kw", None)), ("c", "float", None)],
+        # scalar and callable defaults that the sqlalchemy twin can express as column defaults
+        "sa_defaults": [("code", "str", None), ("title", "str", ("v", "'x'")), ("n", "int", ("f", "make_n")), ("k", "int", ("v", "10"))],
+        # an annotation that cannot be resolved: every kind refuses the model, none guesses
+        "unresolvable": [("a", "int", None), ("ref", "'MissingClass'", None)],
     }
     nms = {
         "plain": {},
@@ -1543,8 +1574,12 @@ def kinds_family(tier, seed):
         # never called by a correct pipeline (a factory runs per load); a tagged result exposes hoisting
         return ["made"]
     tag(make_items, "factory:make_items")
+    def make_n():
+        return 77
+    tag(make_n, "factory:make_n")
     kinds = list(KIND_TEMPLATES)
-    SPEC_EXTRA_KINDS = {"sa_pk": ["sqlalchemy"]}
+    SPEC_EXTRA_KINDS = {"sa_pk": ["sqlalchemy", "mapped_dataclass"], "sa_defaults": ["sqlalchemy", "mapped_dataclass"],
+                        "defaults": ["mapped_dataclass"], "snake": ["mapped_dataclass"]}
     modes = [DebugTrail.ALL] if tier == "quick" else [DebugTrail.ALL, DebugTrail.FIRST, DebugTrail.DISABLE]
     # (private_req x as_list: TypedDict's alphabetical field order -- the C17 known finding -- meets the skipped private field;
     # the ordering finding is already reported on the other specs)
@@ -1558,14 +1593,15 @@ def kinds_family(tier, seed):
                     rec = {"kind": "kinds", "spec": sname, "fields": [[n, t, list(d) if d else None] for n, t, d in spec], "nm": nname,
                            "model_kind": kind, "debug_trail": mode.name}
                     try:
-                        M = None if kind in SPEC_EXCLUDES.get(sname, ()) else build_kind_model(kind, "M", spec, {"make_items": make_items})
+                        M = None if kind in SPEC_EXCLUDES.get(sname, ()) else build_kind_model(kind, "M", spec, {"make_items": make_items, "make_n": make_n})
                         if M is None:
                             rec["inexpressible"] = True
                             emit(rec)
                             continue
                         try:
                             import inspect
-                            rec["ctor_params"] = [[p.name, p.kind.name] for p in inspect.signature(M).parameters.values()]
+                            rec["ctor_params"] = [[p.name, p.kind.name, p.default is not inspect.Parameter.empty]
+                                                  for p in inspect.signature(M).parameters.values()]
                         except (TypeError, ValueError):
                             rec["ctor_params"] = None
                         acc = CodeGenAccumulator()
@@ -1733,7 +1769,8 @@ def describe_callable(v, depth=0):
 GENERIC_PRELUDE = (
     "from dataclasses import dataclass\n"
     "from decimal import Decimal\n"
-    "from typing import Any, Dict, Generic, List, NamedTuple, Optional, TypedDict, TypeVar, Union\n"
+    "from typing import Any, Dict, Generic, List, NamedTuple, Optional, Tuple, TypedDict, TypeVar, TypeVarTuple, Union, Unpack\n"
+    "Ts = TypeVarTuple('Ts')\n"
     "from attrs import define as attrs_define\n"
     "from pydantic import BaseModel as PydBaseModel\n"
     "T = TypeVar('T')\nU = TypeVar('U')\nV = TypeVar('V')\n"
@@ -1818,6 +1855,13 @@ def generics_family(tier, seed):
         "attrs_shadowing": {"kind": "attrs", "classes": [("A", ["T"], [], {"x": "T", "y": "T"}),
                                                          ("B", ["U"], [("A", ["int"])], {"x": "List[U]"})],
                             "queries": ["B[Decimal]", "B[str]"]},
+        # attrs: a custom __init__ that delegates to __attrs_init__; subclasses merely INHERIT __attrs_init__
+        "attrs_custom_init": {"kind": "attrs", "custom_init": ["A"],
+                              "classes": [("A", ["T"], [], {"a": "T", "as_": "List[T]"}),
+                                          ("Child", [], [("A", ["int"])], {"c": "str"}),
+                                          ("GenChild", ["T"], [("A", ["int"])], {"d": "T"}),
+                                          ("Thru", ["U"], [("A", ["U"])], {})],
+                              "queries": ["A[str]", "Child", "GenChild[str]", "GenChild[Decimal]", "Thru[bool]"]},
         "nt_simple": {"kind": "namedtuple", "classes": [("A", ["T", "U"], [], {"x": "T", "xs": "Dict[U, List[T]]", "n": "int"})],
                       "queries": ["A[int, str]", "A[Decimal, bytes]", "A"]},
         "pyd_two_levels": {"kind": "pydantic", "classes": [("A", ["T"], [], {"a": "T", "as_": "List[T]"}),
@@ -1841,6 +1885,31 @@ def generics_family(tier, seed):
                                 ("D4", [], [("B", ["int"]), ("C3", ["int"])], {}),
                                 ("E5", ["U"], [("C3", ["U"]), ("B", ["U"])], {"own": "U"})],
                     "queries": ["D4", "E5[str]", "E5[Decimal]"]},
+        # the class that re-annotates the member is an INDIRECT ancestor reached through the second base (MRO: D, B, C, C0, A)
+        "diamond_deep": {"classes": [("A", ["V"], [], {"x": "V", "y": "V"}),
+                                     ("B", ["T"], [("A", ["T"])], {}),
+                                     ("C0", ["V"], [("A", ["V"])], {"x": "List[V]"}),
+                                     ("C3", ["T"], [("C0", ["T"])], {}),
+                                     ("D4", [], [("B", ["int"]), ("C3", ["Decimal"])], {}),
+                                     ("E5", ["U"], [("B", ["U"]), ("C3", ["str"])], {"own": "U"})],
+                         "queries": ["D4", "E5[bool]", "E5[float]"]},
+        # the first base merely inherits a member that an unrelated second base declares itself (MRO: D, B, A, M): the first wins
+        "second_base_declares": {"classes": [("A", ["T"], [], {"x": "T"}),
+                                             ("B", ["T"], [("A", ["T"])], {}),
+                                             ("M", ["U"], [], {"x": "List[U]", "m": "U"}),
+                                             ("D4", [], [("B", ["int"]), ("M", ["str"])], {}),
+                                             ("E5", ["V"], [("M", ["V"]), ("B", ["bool"])], {})],
+                                 "queries": ["D4", "E5[Decimal]"]},
+        # PEP 646: a TypeVarTuple takes any number of arguments; a child may thread its own TypeVarTuple through a base
+        "tvt_simple": {"classes": [("Rec", ["T", "*Ts"], [], {"key": "T", "values": "Tuple[*Ts]", "lead": "Tuple[int, *Ts]"})],
+                       "queries": ["Rec[int, str, bool]", "Rec[str]", "Rec[Decimal, bytes]"]},
+        "tvt_threaded": {"classes": [("Rec", ["T", "*Ts"], [], {"key": "T", "values": "Tuple[*Ts]"}),
+                                     ("IntRec", ["*Ts"], [("Rec", ["int", "*Ts"])], {}),
+                                     ("Mid", ["U", "*Ts"], [("Rec", ["U", "str", "*Ts"])], {"extra": "U"}),
+                                     ("Deep", ["*Ts"], [("Mid", ["bool", "*Ts", "float"])], {}),
+                                     ("Fixed", [], [("IntRec", ["str", "Decimal"])], {})],
+                         "queries": ["IntRec[str, bool]", "IntRec[Decimal]", "IntRec", "Mid[int, bytes]", "Mid[Decimal]",
+                                     "Deep[int]", "Deep[bytes, str]", "Fixed", "Rec"]},
         "two_bases": {"classes": [("A", ["T"], [], {"a": "T"}), ("M", ["U"], [], {"m": "U"}),
                                   ("B", ["T", "U"], [("A", ["T"]), ("M", ["U"])], {"own": "Dict[T, U]"})],
                       "queries": ["B[int, str]", "B[str, float]"]},
@@ -1888,6 +1957,26 @@ def generics_family(tier, seed):
                 for _ in range(2):
                     queries.append(f"{name}[{', '.join(rnd.choice(CONC) for _ in params)}]" if params else name)
             specs[f"rand{i}"] = {"classes": classes, "queries": sorted(set(queries))}
+        # random diamonds: a root, two chains over it (each level passes through or re-annotates a root field), a join
+        for i in range(60):
+            classes = [("R", ["T"], [], {"x": "T", "y": "T"})]
+            tips = []
+            for br in "PQ":
+                prev = "R"
+                for lvl in range(rnd.randint(1, 3)):
+                    name = f"{br}{lvl}"
+                    fields = {}
+                    if rnd.random() < 0.4:
+                        fields[rnd.choice(["x", "y"])] = rnd.choice(["List[T]", "Optional[T]", "Dict[str, T]", "str"])
+                    classes.append((name, ["T"], [(prev, ["T"])], fields))
+                    prev = name
+                tips.append(prev)
+            if rnd.random() < 0.5:
+                tips.reverse()
+            a1, a2 = rnd.sample(CONC, 2)
+            classes.append(("J", [], [(tips[0], [a1]), (tips[1], [a2])], {}))
+            classes.append(("JG", ["U"], [(tips[0], ["U"]), (tips[1], [a2])], {"own": "U"}))
+            specs[f"rdiamond{i}"] = {"classes": classes, "queries": ["J", f"JG[{rnd.choice(CONC)}]"]}
     for sname, spec in specs.items():
         src = GENERIC_PRELUDE
         for name, params, bases, fields in spec["classes"]:
@@ -1910,6 +1999,9 @@ def generics_family(tier, seed):
                 src += f"class {name}({', '.join(bl)}):\n{body}\n"
                 continue
             if spec.get("kind") == "attrs":
+                if name in spec.get("custom_init", ()):
+                    body += ("\n    def __init__(self, " + ", ".join(f"{f}: {t}" for f, t in fields.items()) + "):\n"
+                             "        self.__attrs_init__(" + ", ".join(f"{f}={f}" for f in fields) + ")")
                 src += f"@attrs_define\nclass {name}" + (f"({', '.join(bl)})" if bl else "") + f":\n{body}\n"
                 continue
             src += f"@dataclass\nclass {name}" + (f"({', '.join(bl)})" if bl else "") + f":\n{body}\n"
